@@ -487,6 +487,23 @@ def prescan_byte_sets(ctx):
                 "after a `<` that is not followed by a letter the pre-scan resumes one byte too far (matchBytes has stepped past the `<`, the "
                 "main loop steps once more): in `<<meta charset=koi8-r>` the second `<` is never examined and the declaration is missed "
                 "(visible where the tree builder cannot see the element either: `<title><<meta charset=koi8-r></title>`)")
+    # (h) running off the end of the buffer inside a tag aborts the pre-scan ("... the algorithm is aborted, returning nothing"): the
+    # end-of-buffer outcome of the skip before an attribute name must not be taken for the `>` that ends the tag
+    firsts = [st for st in ga.node.body if isinstance(st, ast.If)]
+    eob = None
+    for st in firsts[:2]:
+        mt = membership_test(st.test, lambda x: ce.try_eval(x, mod, env) if not (isinstance(x, ast.Constant) and x.value is None) else "<None>")
+        if mt is not None and any(isinstance(x, ast.Return) for x in st.body):
+            eob = (st, set(mt[1]))
+            break
+    raises_on_none = any(isinstance(st, ast.If) and "is None" in norm(st.test) and any(isinstance(x, ast.Raise) for x in st.body) for st in firsts[:3])
+    if eob is None:
+        r.idiom("C06.17", raises_on_none, "end-of-buffer-in-tag-aborts", ga.where, "getAttribute: what ends the attribute list was not recognised")
+    else:
+        r.check("C06.17", "<None>" not in eob[1] and None not in eob[1], "end-of-buffer-in-tag-aborts", "%s:%d" % (REL, eob[0].lineno),
+                "getAttribute returns \"no more attributes\" when the buffer ends before an attribute name, exactly as for `>`: a <meta> tag cut off by the "
+                "end of the input is taken for complete -- parse(b'<!DOCTYPE html><meta charset=koi8-r ') reports koi8-r although no complete "
+                "declaration exists (the standard aborts the pre-scan, and the tokenizer emits no meta element either)")
     # (e) comment end: the search for `-->` starts two bytes before the position matchBytes(b"<!--") left
     hc = ctx.repo.func(REL, "EncodingParser.handleComment")
     jt = [c for c in ast.walk(hc.node) if isinstance(c, ast.Call) and norm(c.func).endswith("jumpTo") and c.args and ce.try_eval(c.args[0], mod, {}) == b"-->"]
